@@ -392,7 +392,7 @@ func (d *GDoc) render() string {
 // ---------------------------------------------------------------------------------------
 // damage: what storage and transfer faults make out of a file
 
-var damageKinds = []string{"bitflip", "drop", "insert", "truncate", "zero", "stutter", "lonecr", "crlf_partial", "latin1", "randblock", "dup_line", "splice"}
+var damageKinds = []string{"bitflip", "drop", "insert", "truncate", "zero", "stutter", "lonecr", "crlf_partial", "latin1", "randblock", "dup_line", "splice", "bignum"}
 
 func damage(r *Rng, s string, kind string) string {
 	b := []byte(s)
@@ -480,6 +480,50 @@ func damage(r *Rng, s string, kind string) string {
 		i := r.Intn(len(ls))
 		ls = append(ls[:i+1], ls[i:]...)
 		b = []byte(strings.Join(ls, ""))
+	case "bignum":
+		// digit runs replaced by absurdly large numbers (stuck key, corrupted length field)
+		s2 := string(b)
+		var runs [][2]int
+		for i := 0; i < len(s2); {
+			if s2[i] >= '0' && s2[i] <= '9' {
+				j := i
+				for j < len(s2) && s2[j] >= '0' && s2[j] <= '9' {
+					j++
+				}
+				if j < len(s2) && (s2[j] == 'h' || s2[j] == 'm') {
+					runs = append(runs, [2]int{i, j})
+				}
+				i = j
+			} else {
+				i++
+			}
+		}
+		if len(runs) > 0 {
+			k := r.Range(1, min(3, len(runs)))
+			for ; k > 0; k-- {
+				run := runs[r.Intn(len(runs))]
+				big := r.Pick([]string{"9223372036854775807", "153722867280912930", "4611686018427387904", "99999999999", "76861433640456465", "9223372036854775000"})
+				if run[1]-run[0] == len(big) {
+					continue
+				}
+				s2 = s2[:run[0]] + big + s2[run[1]:]
+				break
+			}
+			if r.Chance(1, 2) {
+				// the same once more, elsewhere
+				for i := len(s2) - 1; i > 0; i-- {
+					if (s2[i] == 'm' || s2[i] == 'h') && s2[i-1] >= '0' && s2[i-1] <= '9' && !strings.HasSuffix(s2[:i], "7") {
+						j := i
+						for j > 0 && s2[j-1] >= '0' && s2[j-1] <= '9' {
+							j--
+						}
+						s2 = s2[:j] + "9223372036854775807" + s2[i:]
+						break
+					}
+				}
+			}
+		}
+		b = []byte(s2)
 	case "splice":
 		// a block of the file lands at another offset (lost/misdirected write)
 		i := in()
